@@ -23,7 +23,7 @@ FLOORS = {
                  'parse_results': 120000, 'rewrite_results': 500000, 'depth2_results': 150000,
                  'property_results': 30000},
 }
-BUDGET = {'quick': {'exprs': 14000, 'props': 3000}, 'thorough': {'exprs': 150000, 'props': 30000}}
+BUDGET = {'quick': {'exprs': 14000, 'props': 3000}, 'thorough': {'exprs': 700000, 'props': 120000}}
 TIMEOUT = {'quick': 900, 'thorough': 7200}
 
 
